@@ -34,10 +34,41 @@ RULE_W1 = ("each evaluation is one simulated end-to-end run (scenario = config +
            "drawn from VERIF_SEED; schedule = tape of choices among enabled gates / connection deliveries / env actions / time steps). "
            "distinct = distinct decision-log hash; non-trivial = the run took >20 scheduler steps and delivered at least one file")
 
+RULE_W2 = ("each evaluation is one simulated run of the real receiver against a scripted peer: the scenario is a generated script of wire-level requests "
+           "(hand-encoded payloads: arbitrary part order, duplicates, overlaps, truncation, hostile names, wrong credentials), operator calls, crashes and clock jumps; "
+           "the tape interleaves request issue, byte delivery on up to 4 concurrent connections, receiver gates and time. distinct = distinct decision-log hash; "
+           "non-trivial = at least 3 peer requests were answered and >15 scheduler steps taken")
+
+
+def w2_progress(r, st):
+    return r.get("steps", 0) > 15 and sum(v for k, v in st.items() if k.startswith("peer:")) >= 3
+
+
+W2_COMPONENTS = {
+    "real": ["main.serverApp.init + standardValidator", "http.Server.Serve routes (data, data-recovery, validate, partials, static, internal clean/prune/restart)",
+             "payload.NewDecoder / PartDecoder", "stage.Stage (Prepare/Receive/Received/Scan/GetFileStatus, validators, finalizer, cleaner, Recover)", "log.FileIO receive log", "net/http server", "real file system (tmpfs)"],
+    "simulated": ["network", "clock", "goroutine interleaving at gates", "receiver crash/restart"],
+    "scripted": ["the sending side: a harness peer that encodes the wire format by hand (no sts client code)"],
+}
+
+RULE_ENUM = ("each run index draws a scenario, executes it once without the fault to count the positions it exercises, then re-executes it once per position: %s. "
+             "evaluations = executions; distinct = distinct decision-log hash; non-trivial = >20 steps and at least one delivery")
+
 PROPS = {
     # prop: (runs, per-worker wall budget seconds)
     "C01": mk("exploration", RULE_W1, (1600, 45), (40000, 900)),
     "C02": mk("exploration", RULE_W1, (1600, 45), (40000, 900)),
     "C03": mk("exploration", RULE_W1, (1200, 50), (30000, 900)),
     "C05": mk("exploration", RULE_W1, (1600, 45), (40000, 900)),
+    "C04": mk("exploration", RULE_W1, (1600, 45), (40000, 900)),
+    "C08": mk("exploration", RULE_W1, (1600, 45), (40000, 900)),
+    "C10": mk("exploration", RULE_W1, (1600, 45), (40000, 900)),
+    "C11": mk("exploration", RULE_W1, (1600, 45), (40000, 900)),
+    "C13": mk("exploration", RULE_W1, (1600, 45), (40000, 900)),
+    "C06": mk("fault_enumeration", RULE_ENUM % "receiver crash at the k-th occurrence of each labelled durable step (H1 crash points), optionally a second crash during recovery", (48, 50), (1200, 1200)),
+    "C07": mk("fault_enumeration", RULE_ENUM % "sender crash before its k-th externally visible action (decorated client.Conf call) or between writing and renaming the queue cache", (48, 50), (1200, 1200)),
+    "C09": mk("exploration", RULE_W2, (2400, 45), (60000, 900), nontrivial=w2_progress, components=W2_COMPONENTS),
+    "C14": mk("exploration", RULE_W2, (1600, 50), (40000, 900), nontrivial=w2_progress, components=W2_COMPONENTS),
+    "C15": mk("exploration", RULE_W2, (1600, 50), (40000, 900), nontrivial=w2_progress, components=W2_COMPONENTS),
+    "C16": mk("fault_enumeration", RULE_ENUM % "stop request (graceful and immediate) issued at the k-th externally visible sender action, plus the one-shot stop right after start", (48, 50), (1200, 1200)),
 }
